@@ -349,6 +349,49 @@ func runC15(c *core.Ctx) {
 		}
 		cs.Check(ok, "oversized-fixed/blocks", det)
 	})
+	// unknown blocks whose first word looks like an RTCP header (version bits 10 in the block type,
+	// a packet type 200..207 as the type-specific octet, and a length that fits what remains):
+	// inside an XR packet it is a block like any other, first, last or in the middle
+	c.Exhaustive("unknown blocks with BT 0x80..0xBF x type-specific 200..207 x 3 positions", 64*8*3)
+	c.Section("header-like-blocks", 64*8*3, func(cs *core.Case) {
+		r := cs.R
+		bt := uint8(0x80 + cs.Idx%64)
+		ts := uint8(200 + cs.Idx/64%8)
+		pos := int(cs.Idx / 512)
+		for _, words := range []int{0, 1, 2, 5} {
+			body := r.Bytes(4 * words)
+			blk := append([]byte{bt, ts, byte(words >> 8), byte(words)}, body...)
+			rrt := []byte{4, 0, 0, 2, 1, 2, 3, 4, 5, 6, 7, 8}
+			in := []byte{0x80, 207, 0, 0, 9, 9, 9, 9}
+			switch pos {
+			case 0:
+				in = append(in, blk...)
+			case 1:
+				in = append(append(in, rrt...), blk...)
+			default:
+				in = append(append(append(in, rrt...), blk...), rrt...)
+			}
+			gen.FitLength(in)
+			g, err, pan := gUnmarshalOwn(gen.XR, cloneBytes(in))
+			cs.Eval(1)
+			if pan != "" {
+				cs.Fail("panic/Unmarshal", core.W{"input_hex": mon.Hex(in, 200), "panic": pan})
+				return
+			}
+			want := []int{1, 2, 3}[pos]
+			ok := err == nil && len(g.(*rtcp.ExtendedReport).Reports) == want
+			if ok {
+				ub, isU := g.(*rtcp.ExtendedReport).Reports[[]int{0, 1, 1}[pos]].(*rtcp.UnknownReportBlock)
+				ok = isU && uint8(ub.BlockType) == bt && uint8(ub.TypeSpecific) == ts && bytes.Equal(ub.Bytes, body)
+			}
+			if !cs.Check(ok, "unknown/header-like-block", func() core.W {
+				return core.W{"input_hex": mon.Hex(in, 200), "block_type": bt, "type_specific": ts, "position": []string{"only", "last of two", "middle of three"}[pos], "error": errStr(err), "decoded": vdump(g)}
+			}) {
+				return
+			}
+		}
+		cs.DistinctN(4)
+	})
 	c.Section("unknown-from-wire", 249*c.N(20, 400), func(cs *core.Case) {
 		r := cs.R
 		bt := uint8(cs.Idx % 249)
